@@ -167,6 +167,29 @@ func c03(r *rep.Run) {
 				if len(h.Protocol) > 0 {
 					r.Violate("fetcher-protocol", p.Src+c.o.String(), h.Protocol[0], caseDesc(p.Src, c.o, p.Vars, vals, nil, nil))
 				}
+				// EvalBool is Eval plus a type check: the same effects, also when the
+				// fetcher keeps nothing cached (every variable is fetched on demand)
+				if p.T.Ty == B && c.o.Events == 0 {
+					evalTrace := append([]ref.Ev(nil), h.Trace...)
+					h.Reset()
+					var bv bool
+					var berr error
+					pn, site := drive.Fence(func() { bv, berr = c.e.EvalBool(&eval.Ctx{VariableFetcher: uncached{c.f}}) })
+					ex++
+					gotB := drive.Out{Val: bv, Err: berr, Panic: pn, Site: site}
+					wantB := got
+					if _, isBool := got.Val.(bool); got.Err == nil && !isBool {
+						wantB = drive.Out{Err: fmt.Errorf("not a boolean")}
+					}
+					if berr != nil {
+						gotB.Val = nil
+					}
+					if !drive.SameOutcome(gotB, wantB) || !ref.TraceEqual(evalTrace, h.Trace) {
+						r.Violate("evalbool-trace", p.Src+c.o.String(), sprintf("EvalBool with a fetcher that keeps nothing cached gives %s and performs %v; Eval gives %s and performs %v", gotB, traceStr(h.Trace), got, traceStr(evalTrace)),
+							caseDesc(p.Src, c.o, p.Vars, vals, nil, nil))
+					}
+					h.Trace = append(h.Trace[:0], evalTrace...)
+				}
 				// TryEval with every variable available performs the same effects
 				if c.o.Events != 0 || c.o.Undef != 0 {
 					continue
@@ -282,22 +305,40 @@ func c03Nested(r *rep.Run) {
 				for outerK := 0; outerK < 3; outerK++ {
 					for innerK := 0; innerK < 3; innerK++ {
 						for mode := 0; mode < 2; mode++ {
-							for innerMode := 0; innerMode < 2; innerMode++ {
+							for innerMode := 0; innerMode < 4; innerMode++ {
+								// innerMode 2, 3: the nested evaluation is made with the very
+								// context the engine handed to the operator (same *Ctx, hence
+								// the outer binding), Eval / TryEval
+								if innerMode >= 2 && innerK != outerK {
+									continue
+								}
 								outerVals := bind(outerK)
 								copy(c.f.Vals, outerVals)
 								copy(inner.Vals, bind(innerK))
 								depth := 0
 								var innerOut drive.Out
-								h.OpHook = func(name string, _ []eval.Value) {
-									if name != "g" || depth > 0 {
+								h.OpHookCtx = func(name string, ctx *eval.Ctx, _ []eval.Value) {
+									if name != "g" || depth > 0 || ctx == nil {
 										return
 									}
 									depth++
 									saved := len(h.Trace)
-									if innerMode == 0 {
+									switch innerMode {
+									case 0:
 										innerOut = h.Eval(c.e, inner)
-									} else {
+									case 1:
 										innerOut = h.TryEval(c.e, inner)
+									default:
+										var v eval.Value
+										var err error
+										pn, site := drive.Fence(func() {
+											if innerMode == 2 {
+												v, err = c.e.Eval(ctx)
+											} else {
+												v, err = c.e.TryEval(ctx)
+											}
+										})
+										innerOut = drive.Out{Val: v, Err: err, Panic: pn, Site: site}
 									}
 									h.Trace = h.Trace[:saved]
 									depth--
@@ -309,7 +350,7 @@ func c03Nested(r *rep.Run) {
 								} else {
 									got = h.TryEval(c.e, c.f)
 								}
-								h.OpHook = nil
+								h.OpHookCtx = nil
 								runs++
 								if outerK != innerK {
 									nontrivial++
@@ -317,7 +358,7 @@ func c03Nested(r *rep.Run) {
 								ok, wantTrace, want := c03Match(tree, p.Vars, outerVals, o.FE, got, h.Trace)
 								if !ok {
 									r.Violate("nested-evaluation", sprintf("%d%s", w, o), sprintf("while operator g ran, the same compiled program was evaluated under another binding; afterwards the outer %s gives %s / performs other effects than short-circuit evaluation of its own binding (%s)", []string{"Eval", "TryEval"}[mode], got, want),
-										caseDesc(p.Src, o, p.Vars, outerVals, nil, map[string]interface{}{"nested_binding": fmt.Sprint(inner.Vals), "nested_entry": []string{"Eval", "TryEval"}[innerMode], "nested_result": innerOut.String(), "got_trace": traceStr(h.Trace), "want_trace": traceStr(wantTrace)}))
+										caseDesc(p.Src, o, p.Vars, outerVals, nil, map[string]interface{}{"nested_binding": fmt.Sprint(inner.Vals), "nested_entry": []string{"Eval", "TryEval", "Eval with the context the operator was handed", "TryEval with the context the operator was handed"}[innerMode], "nested_result": innerOut.String(), "got_trace": traceStr(h.Trace), "want_trace": traceStr(wantTrace)}))
 								}
 							}
 						}
@@ -448,3 +489,9 @@ func c03IllTypedIf(r *rep.Run) {
 	r.Cov["ill_typed_condition_runs"] = runs
 	r.Add(0, runs, runs, runs, nontrivial)
 }
+
+// uncached is a fetcher that keeps nothing cached: every variable has to be
+// fetched (Get works, Cached answers false).
+type uncached struct{ *drive.Fetcher }
+
+func (u uncached) Cached(eval.VariableKey, string) bool { return false }
